@@ -559,7 +559,7 @@ func c05run(x *mc.X, impl string, classes []c05class) {
 	if maskFile != "" {
 		mf, md := rep.Targets[maskFile], rep.Targets[maskDir]
 		if impl != "container+dirmask-without-devnull" && rawInt(mf, "read_len") > 0 {
-			fail("mask-leaks-file", "masked file %s still has %d readable bytes", maskFile, rawInt(mf, "read_len"))
+			fail("mask-leaks-file", "masked file %s has %d readable bytes (host content, or what the program itself could write into the mask — also after a chmod — and a later program would find)", maskFile, rawInt(mf, "read_len"))
 		}
 		if l := rawList(md, "list"); len(l) > 0 {
 			fail("mask-leaks-directory", "masked directory %s still lists %v", maskDir, l)
